@@ -593,6 +593,27 @@ func runReaderOp(prop string, seg, other segment.Segment, want, wantOther *spec.
 			vv.Message = fmt.Sprintf("goroutine %d: merge with the shared segment as input: %s", g, vv.Message)
 			return vv
 		}
+		if op.A%2 == 1 {
+			// second generation: the output (which now holds single-hit dictionary entries) is
+			// merged once more on its own - the byte-copying path - while the other goroutines
+			// do the same with theirs
+			prod, err := drive.Open(path)
+			if err != nil {
+				return violation(prop, "stress/error", "goroutine %d: opening the merge output: %v", g, err)
+			}
+			path2 := drive.NewPath("c11merge2")
+			defer os.Remove(path2)
+			_, _, err = drive.Merge([]segment.Segment{prod}, []*roaring.Bitmap{nil}, path2, 0, nil, nil)
+			prod.Close()
+			if err != nil {
+				return violation(prop, "stress/merge-error", "goroutine %d: re-merging the merge output failed: %v", g, err)
+			}
+			if vv := reopenAndCompare(prop, path2, mw, spec.DiffOpts{DVFieldsSub: true, SkipFields: true}); vv != nil {
+				vv.Signature = "stress/remerge-output-" + vv.Signature
+				vv.Message = fmt.Sprintf("goroutine %d: the merge output merged once more on its own: %s", g, vv.Message)
+				return vv
+			}
+		}
 	}
 	return nil
 }
